@@ -385,6 +385,9 @@ pub enum Action {
   Unsub(usize),
   /// wrap recorder k's subscription into a Using guard and drop it
   DropUsing(usize),
+  /// the Using guard is dropped the way unwinding would drop it (`thread::panicking()` is
+  /// true meanwhile)
+  DropUsingUnwinding(usize),
   /// advance virtual time by ms (lets timers fire)
   Advance(u64),
   /// connectable cases: publish().connect() / unsubscribe the connection
@@ -428,6 +431,7 @@ impl Case {
         Action::Emit(i, Ev::C) => format!("h{}!C", i),
         Action::Unsub(k) => format!("unsub{}", k),
         Action::DropUsing(k) => format!("dropusing{}", k),
+        Action::DropUsingUnwinding(k) => format!("dropusing{}(unwinding)", k),
         Action::Advance(ms) => format!("+{}ms", ms),
         Action::Connect => "connect".to_string(),
         Action::Disconnect => "disconnect".to_string(),
